@@ -1511,3 +1511,52 @@ def facade_forwards_parameters(ctx, rule, names=None):
                    % missing, ctx.loc(f))
     if n < (1 if names else 100):
         raise AnalysisError('DB API facade functions not found (%d)' % n)
+
+
+def rpc_request_sent_once(ctx, rule):
+    """One request of the caller is one message on the wire: in the RPC
+    client layer (drivers in mistral.rpc.*, the engine / executor / notifier
+    clients and the exception-unwrapping decorator) no path sends twice -
+    a second `call` after a timeout of the first one starts a second
+    workflow / delivers a second result when the first request was merely
+    slow.  Decided per function: any two send sites are on alternative
+    branches (neither is reachable from the other, exception edges
+    included)."""
+    prog = ctx.prog
+    SENDS = ('call', 'cast', 'sync_call', 'async_call')
+    n_f = 0
+    for q, f in sorted(prog.funcs.items()):
+        if not q.startswith('mistral.rpc.') or '.kombu.' in q:
+            continue
+        names = set(SENDS)
+        if q.endswith('wrap_messaging_exception.decorator'):
+            names = {'method'}
+        cfg = None
+        sites = []
+        for c in own_nodes(f.node):
+            if isinstance(c, ast.Call) and (
+                    (isinstance(c.func, ast.Attribute) and
+                     c.func.attr in names) or
+                    (isinstance(c.func, ast.Name) and c.func.id in names)):
+                sites.append(c)
+        if not sites:
+            continue
+        n_f += 1
+        cfg = ctx.cfg(f)
+        nodes = [cfg.node_of(c) for c in sites]
+        bad = None
+        for i, a in enumerate(nodes):
+            for j, b in enumerate(nodes):
+                if i != j and (a is b or
+                               cfg.paths_between(a, b, follow_exc=True)):
+                    bad = (sites[i], sites[j])
+            if bad is None and cfg.paths_between(a, a, follow_exc=True):
+                bad = (sites[i], sites[i])
+        rule.check(bad is None, ctx.construct(f, extra='one send per request'),
+                   'a request can be sent twice on one path (%s then %s): '
+                   'the receiver runs it twice when the first one was only '
+                   'slow' % ((norm(bad[0], 50), norm(bad[1], 50))
+                             if bad else ('', '')), ctx.loc(f))
+    if n_f < 15:
+        raise AnalysisError('RPC client layer: only %d sending functions '
+                            'found' % n_f)
